@@ -101,6 +101,10 @@ def handle (stream : String) (args : List String) : String :=
     | some n =>
       let r := exchangeForeignOffer ⟨.webrtc, none⟩ ⟨.webrtc, none⟩ (parseOffer o) n
       s!"{roleText r.1.role} {roleText r.2.role}"
+  | "dcpre", [ro, ra] =>
+    match parseRole ro, parseRole ra with
+    | some ro, some ra => s!"{dcAlloc ro []} {dcAlloc ra []}"
+    | _, _ => "bad-role"
   | "dc", [r, used] =>
     match parseRole r with
     | none => "bad-role"
